@@ -233,23 +233,30 @@ def run(rep):
         n_pbc += 1
     rep.extra['partially_periodic_cells'] = n_pbc
     # realised histories through Jumps.collective()
-    for b in range(n_cases, n_cases + (6 if quick else 60)):
+    from pymatgen.core import Structure as _Structure
+    for b in range(n_cases, n_cases + (14 if quick else 80)):
         fam = fams[b % len(fams)]
         w = gen.SiteWorld(rng, fam, 'chol' if fam in gen.ORTHO_FAMILIES else 'pmg', N=32, n_sites=4, radius=1.0, inner_fraction=1.0)
         hist = gen.random_history(rng, 40, 3, 4, p_stay=0.6, inner=False)
-        tr = w.trajectory(hist).transitions_between_sites(w.structure, 'Li', site_radius=1.0)
+        # the sites may come with a cell of their own (an ideal-crystal file next to a thermally expanded run): distances are those of
+        # the SIMULATION cell
+        scale = float(rng.choice([1.0, 1.25, 0.8, 1.06]))
+        sites_structure = _Structure(lattice=_Lattice(w.M * scale), species=['Li'] * 4, coords=np.array(w.sites_k) / 32, labels=list(w.structure.labels))
+        tr = w.trajectory(hist).transitions_between_sites(sites_structure, 'Li', site_radius=1.0)
         j = sites_drive.jumps_or_none(tr, 0)
         if j is None:
             continue
         R = gen.image_range(w.G)
         d2 = sorted({gen.min_image_sq(w.G, [w.sites_k[a][i] - w.sites_k[c][i] for i in range(3)], 32, R) / 32**2
                      for a in range(4) for c in range(4)})
-        cut = next(c for c in (3.1, 3.3, 4.7, 5.2, 2.9) if all(abs(x - c * c) > 1e-4 * c * c for x in d2))
+        # cut-off halfway between two neighbouring site distances (so that a few per cent error in a distance changes the answer)
+        mids = [math.sqrt((d2[q] + d2[q + 1]) / 2) for q in range(len(d2) - 1) if d2[q + 1] > d2[q] * 1.0004 and d2[q + 1] > 1.0]
+        cut = float(mids[int(rng.integers(0, len(mids)))]) if mids else 3.1
         col = j.collective(max_dist=cut)
         pairs, nsolo, ncoll = observe(col)
         recs.append({'b': b, 'jumps': sites_drive.rows_of(j.data, sites_drive.J_COLS), 'window': int(col.max_steps),
                      'sites': w.sites_k, 'G': w.G, 'N': 32, 'R': R, 'thr': int(math.ceil(cut * cut * 32 * 32)),
-                     'pairs': pairs, 'nsolo': nsolo, 'ncoll': ncoll, 'meta': f'{fam} via Jumps.collective cut={cut}'})
+                     'pairs': pairs, 'nsolo': nsolo, 'ncoll': ncoll, 'meta': f'{fam} via Jumps.collective cut={cut:.4f} sites-lattice-scale={scale}'})
     verdicts = core.validate_traces('TraceColl', recs, timeout=1800)
     rep.add_trace_stats()
     for rec, (v, _) in zip(recs, verdicts):
